@@ -51,6 +51,8 @@ def cases(tier, rng):
             for sur in (0, 1, 5) + ((B + 3,) if L % 64 == 1 else ()):
                 for pat in (['rand'] if tier == 'quick' else ['rand', 'ones']):
                     yield {'k': 'bits', 'alg': alg, 'L': L, 'sur': sur, 'pat': pat}
+        for j in range((40 if alg in ('md4', 'md5') else 6) * (1 if tier == 'quick' else 10)):
+            yield {'k': 'batch', 'alg': alg, 'j': j}
         for over in (1, 7, 8, 9, bs):
             for n in (0, 1, B - 1, B, B + 1):
                 yield {'k': 'reject', 'alg': alg, 'n': n, 'over': over}
@@ -91,6 +93,14 @@ def run(case, ctx, rng):
             ctx.eq('digest-length', len(got), a['outlen'], alg=alg)
         # same object again with the bit length passed by keyword
         ctx.eq('digest==reference', call(h, m, bitlen=L), mdsha.digest(alg, m, L), alg=alg, L=L, sur=sur, second_call=True)
+    elif k == 'batch':
+        ctx.cls((alg, 'batch', case['j'] % 5))
+        for _ in range(100):
+            m = rng.randbytes(rng.randrange(0, 70))
+            got = call(h, m)
+            ok = ctx.eq('digest==reference', got, mdsha.digest(alg, m), alg=alg, m=m, batch=True)
+            if not is_exc(got):
+                ctx.eq('digest-length', len(got), a['outlen'], alg=alg, m=m)
     elif k == 'reject':
         n = case['n']
         m = pattern(rng, n, 'rand')
